@@ -26,7 +26,7 @@ func extractReplacements(p *Prog, f *ssa.Function) (pairs []replPair, simultaneo
 	if len(rets) != 1 {
 		return nil, false, nil, fmt.Sprintf("expected a single return, found %d", len(rets))
 	}
-	v := rets[0].Results[0]
+	v := res(rets[0], 0)
 	c, ok := v.(*ssa.Call)
 	if !ok || c.Common().StaticCallee() == nil || c.Common().StaticCallee().Name() != "AsValue" {
 		return nil, false, nil, "result is not AsValue(...): " + p.VN(v)
@@ -219,9 +219,9 @@ func checkC17(p *Prog, r *Report) {
 	} else {
 		ok := true
 		for _, ret := range returnsOf(f) {
-			if ret.Results[0] != ssa.Value(f.Params[0]) || !isNilConst(ret.Results[1]) {
+			if res(ret, 0) != ssa.Value(f.Params[0]) || !isNilConst(res(ret, 1)) {
 				ok = false
-				r.Bad("safe:identity", p.InstrPos(ret), "safe returns %s, %s instead of its input and nil", p.VN(ret.Results[0]), p.VN(ret.Results[1]))
+				r.Bad("safe:identity", p.InstrPos(ret), "safe returns %s, %s instead of its input and nil", p.VN(res(ret, 0)), p.VN(res(ret, 1)))
 			}
 		}
 		if ok {
@@ -589,7 +589,7 @@ func ruleC17URL(p *Prog, a *Anchors, r *Report) {
 		ok := false
 		rets := returnsOf(f)
 		if len(rets) == 1 {
-			if c, isC := rets[0].Results[0].(*ssa.Call); isC && c.Common().StaticCallee() != nil && c.Common().StaticCallee().Name() == "AsValue" {
+			if c, isC := res(rets[0], 0).(*ssa.Call); isC && c.Common().StaticCallee() != nil && c.Common().StaticCallee().Name() == "AsValue" {
 				if q, isQ := stripConv(c.Common().Args[0]).(*ssa.Call); isQ && q.Common().StaticCallee() != nil && p.extName(q.Common().StaticCallee()) == "net/url.QueryEscape" && isInputString(p, f, q.Common().Args[0]) {
 					ok = true
 				}
